@@ -101,13 +101,18 @@ type Gated struct {
 	pos     int
 	idx     int
 	Over    int // number of over-demands
+	// OnOver, if set, is asked when the released prefix is exhausted: it may raise Release (the next
+	// message of a request/response exchange arrives) and return true; the read then goes on.
+	OnOver func() bool
 }
 
 func (g *Gated) Read(p []byte) (int, error) {
 	if len(p) == 0 {
 		return 0, nil
 	}
-	if g.pos >= g.Release {
+	if g.pos >= g.Release && g.OnOver != nil && g.OnOver() && g.pos < g.Release {
+		// opened further
+	} else if g.pos >= g.Release {
 		g.Over++
 		switch g.Mode {
 		case 1:
